@@ -286,6 +286,11 @@ def proposeATr (n : ℕ) (delta : Rat) (step sd : Fin n → Rat) : Rat :=
 /-- the UNVERIFIED proposal for a square root that is never too small: the binary64 root of the exact argument, pushed
 up by 2^-50 in relative terms when its square falls short; used through `Tcg.checkedSqrtUp`, which checks `x ≤ r²` exactly -/
 def proposeSqrtUp (x : Rat) : Rat :=
+  -- a perfect square of a rational gets its exact root (the code's `np.sqrt(dist ** 2)` is `dist` too: a rotation by a
+  -- right angle that brings a variable exactly onto its bound has the tangent bound 1, not 1 - 1e-16)
+  let sn := Nat.sqrt x.num.toNat
+  let sd := Nat.sqrt x.den
+  if 0 ≤ x.num ∧ sn * sn = x.num.toNat ∧ sd * sd = x.den then (sn : Rat) / (sd : Rat) else
   let r := floatToRat (Float.sqrt (ratToFloat x))
   if x ≤ r * r then r else
   let r1 := r * (1 + 1 / 2 ^ 50)
